@@ -254,6 +254,20 @@ def _stable_unsat_propagation(prog, r, scope, kind):
     mod = STABLE.rsplit("::", 1)[0]
     fns = [b for b in prog.lib_bodies() if b.kind != "closure" and b.path.startswith(mod + "::") or (b.kind != "closure" and ("<" + mod + "::") in b.path)]
     fns = [b for b in fns if "tests" not in b.path]
+    # closures handed to a function of the module that calls them (`merge_component_models(|cc_af, solver| ..)`): judged like functions,
+    # and the place where they are called is a source of None when every closure that can be called there is
+    from .progress import closure_invocations
+
+    invoked = {}
+    for b in list(fns):
+        for c in prog.closures_of(b):
+            if not c.ret_ty.startswith("core::option::Option<"):
+                continue
+            inv = closure_invocations(prog, c)
+            if inv:
+                fns.append(c)
+                for t, y, _ in inv:
+                    invoked.setdefault((t.id, y.bb), []).append(c)
     carrying = {}  # fn id -> True when its None result includes "some component is UNSAT"
     n = 0
     changed = True
@@ -273,6 +287,8 @@ def _stable_unsat_propagation(prog, r, scope, kind):
                     c = callee_of(s)
                     t = prog.body_for_callee(c, y) if c else None
                     if callee_decl(c) == "sat::sat_solver::SolvingResult::unwrap_model" or (t is not None and carrying.get(t.id)):
+                        srcs.append(s)
+                    elif (y.id, s.bb) in invoked and all(carrying.get(x.id) for x in invoked[(y.id, s.bb)]) and len(invoked[(y.id, s.bb)]) >= len(prog.callers_of(y)):
                         srcs.append(s)
             if not srcs:
                 continue
